@@ -875,3 +875,21 @@ def prepass_rules(run):
                                 okf = True
         run.check(okf, R, R + "|prepass|frozen-counts", g.loc(), "a constant frozen in an earlier round answers `Resolved` (and is counted)",
                   "resolve_constant_simple no longer answers `Resolved` for an already resolved constant: the pre-pass count is not monotone")
+
+
+def conditional_scope_rule(run):
+    """a label declared inside a selected `#if` arm is an enclosing label for the dotted names after the block, as if the arm's
+    lines stood in place.  Declarations are made round by round while `#if`s are still undecided; the declaration walker therefore
+    has to treat an undecided DirectiveIf node specially (defer or later re-parent what follows it).  A walker that steps over
+    DirectiveIf like any other node declares the dotted names after the block under the label before it, for good."""
+    f = run.anchor(R, "asm::decls::symbol::collect")
+    if f is None:
+        return
+    handles_if = False
+    for b, arms, oth, pl, vs in T.enum_switch_arms(f, "AstAny"):
+        if "DirectiveIf" in arms:
+            handles_if = True
+    redeclares = not any(True for sb, some_, none_ in option_tests(f, lambda d: d.endswith(".item_ref")))
+    run.check(handles_if or redeclares, R, R + "|walker|conditional-scope", f.loc(),
+              "the declaration walker defers or re-parents what follows an undecided #if",
+              "decls::symbol::collect steps over an undecided `#if` like any other node and never re-declares a symbol: a dotted name after the block is declared under the label that precedes the block, although the selected arm declares a label (`a:` / `#if true { b: }` / `.c:` gives `a.c`, and `ld b.c` fails; `#if true { first: }` / `.loop:` fails with `skips a nesting level`)")
